@@ -130,6 +130,18 @@ func C01(c *vh.Ctx) {
 			goTypedOne(c, "C01", gt)
 			return
 		}
+		var hc struct {
+			Refused *matchCase `json:"refused"`
+			Then    *matchCase `json:"then"`
+		}
+		if c.LoadReplay(&hc) == nil && hc.Refused != nil && hc.Then != nil {
+			c.Eval()
+			match.Match(hc.Refused.P, hc.Refused.M, match.Bindings(copyB(hc.Refused.B)))
+			if why, detail, _ := checkSound(nil, *hc.Then); why != "" {
+				c.Violation("C01/after-a-refused-match/"+why+"/"+shape(hc.Then.P), detail, hc)
+			}
+			return
+		}
 		var cs matchCase
 		if err := c.LoadReplay(&cs); err != nil {
 			c.NotExhaustive("cannot load replay: " + err.Error())
@@ -143,7 +155,7 @@ func C01(c *vh.Ctx) {
 	c.Bound("S1_pattern_nodes_max", pmax)
 	c.Bound("S1_message_nodes_max", mmax)
 	c.Rule("S1: every (pattern,message,bindings) with |P|<=bound, |M|<=bound over atoms {1,2,\"a\",true,null}, keys {a,b}, variables " + fmt.Sprint(c01Vars) +
-		", bindings = {} / each variable x value list / each pair x short list. S2 (pattern-directed): every pattern with variables up to a larger bound over a two-letter alphabet (incl. inequality variables), every assignment of planted values / inequality bounds, messages = the instantiated pattern plus every combination of up to k edits (insertions of extra keys/elements incl. near-copies, atom changes, dropped keys, dropped or duplicated array elements), bindings = the inequality bounds plus nothing / each variable pre-bound to its planted value, to generalisations of it, or to conflicting values; the unedited core also wrapped 1-4 levels deep. S3 (wide arrays): pattern arrays of 2-5 structured elements with distinct variables (maps, arrays, mixed; with and without an array variable; bare and under a key) against message arrays with as many or one more ambiguous elements. S5 (bound arrays): a variable given, or bound earlier in the same match, to a value holding an array of 2-3 members (scalars, maps, arrays, repeated members), against message arrays with fewer members that cover several of them. S7 (operator-like names): variables named ?!n ?=n ?<>n ?=<n ?>>n ?< ?!= ?!<n ?<=n in patterns of up to 3 nodes, with every binding of bindingsFor, against messages of up to 3 nodes. S6 (Go-typed numbers): every small pair that contains a number, and bound variables / inequality bounds, with the numbers of the message, the pattern, the bindings or all of them typed int, int64, int32 or float32: no result beyond those of the float64 rendering. S8: nulls and constant strings that contain question marks without being variables (\"a?\", \"a??\") as pattern constants and message values under keys that are present, absent or null. S9: map patterns in which two or three properties each admit several candidates. S4 (look-alikes): scalars of different JSON types that print alike (1 / \"1\", true / \"true\", null / \"null\", 0 / false / \"\") as array members, map values, property-variable values and bound values. Enumeration is an odometer (duplicate-free); non-trivial = Match returned >=1 binding set for a pattern that has variables.")
+		", bindings = {} / each variable x value list / each pair x short list. S2 (pattern-directed): every pattern with variables up to a larger bound over a two-letter alphabet (incl. inequality variables), every assignment of planted values / inequality bounds, messages = the instantiated pattern plus every combination of up to k edits (insertions of extra keys/elements incl. near-copies, atom changes, dropped keys, dropped or duplicated array elements), bindings = the inequality bounds plus nothing / each variable pre-bound to its planted value, to generalisations of it, or to conflicting values; the unedited core also wrapped 1-4 levels deep. S3 (wide arrays): pattern arrays of 2-5 structured elements with distinct variables (maps, arrays, mixed; with and without an array variable; bare and under a key) against message arrays with as many or one more ambiguous elements. S5 (bound arrays): a variable given, or bound earlier in the same match, to a value holding an array of 2-3 members (scalars, maps, arrays, repeated members), against message arrays with fewer members that cover several of them. S7 (operator-like names): variables named ?!n ?=n ?<>n ?=<n ?>>n ?< ?!= ?!<n ?<=n in patterns of up to 3 nodes, with every binding of bindingsFor, against messages of up to 3 nodes. S6 (Go-typed numbers): every small pair that contains a number, and bound variables / inequality bounds, with the numbers of the message, the pattern, the bindings or all of them typed int, int64, int32 or float32: no result beyond those of the float64 rendering. S8: nulls and constant strings that contain question marks without being variables (\"a?\", \"a??\") as pattern constants and message values under keys that are present, absent or null. S9: map patterns in which two or three properties each admit several candidates. S10: a refused match (a pattern outside the supported fragment met half way through an array of scalars) followed by ordinary array matches. S4 (look-alikes): scalars of different JSON types that print alike (1 / \"1\", true / \"true\", null / \"null\", 0 / false / \"\") as array members, map values, property-variable values and bound values. Enumeration is an odometer (duplicate-free); non-trivial = Match returned >=1 binding set for a pattern that has variables.")
 	pats := ps.UpTo(pmax)
 	msgs := ms.UpTo(mmax)
 	if c.Shard == 0 {
@@ -194,6 +206,56 @@ func C01(c *vh.Ctx) {
 		if c.Mine(uint64(i)) {
 			soundOne(c, cs, true)
 			c.Count("S8_S9_evaluations", 1)
+		}
+	}
+	// S10: what a match that was refused (a pattern outside the supported fragment met half way through an array)
+	// leaves behind must not show in the next match
+	{
+		refused := []matchCase{
+			{P: M{"tags": []interface{}{M{"?k": 1.0, "z": 2.0}}}, M: M{"tags": []interface{}{"secret", 42.0, M{"z": 2.0}}}, B: M{}},
+			{P: []interface{}{[]interface{}{"?a", "?b"}}, M: []interface{}{"secret", 42.0, []interface{}{1.0, 2.0}}, B: M{}},
+			{P: []interface{}{M{"a": []interface{}{"?a", "?b"}}, "?x"}, M: []interface{}{"secret", true, nil, M{"a": []interface{}{1.0}}}, B: M{}},
+			{P: M{"a": []interface{}{"?x", M{"?k": 1.0, "b": 1.0}}}, M: M{"a": []interface{}{"secret", 42.0, M{"b": 1.0}}}, B: M{}},
+		}
+		next := []matchCase{
+			{P: M{"tags": []interface{}{"?x"}}, M: M{"tags": []interface{}{"b"}}, B: M{}},
+			{P: []interface{}{"secret"}, M: []interface{}{"other"}, B: M{}},
+			{P: []interface{}{"?n", "a"}, M: []interface{}{"a", 7.0}, B: M{"?n": 42.0}},
+			{P: []interface{}{"?x"}, M: []interface{}{}, B: M{}},
+			{P: []interface{}{"?x", M{"p": "?y"}}, M: []interface{}{M{"p": 1.0}}, B: M{}},
+			{P: M{"a": []interface{}{42.0}}, M: M{"a": []interface{}{41.0}}, B: M{}},
+			{P: []interface{}{"??o"}, M: []interface{}{}, B: M{}},
+		}
+		if c.Shard == 0 || c.Shards == 1 {
+			for _, r := range refused {
+				for _, n := range next {
+					// the history as a whole is the case: a refused match (an error - only what it leaves behind
+					// matters), then the ordinary one; a failure must reproduce when the history is run again
+					hist := func() (string, string) {
+						match.Match(r.P, r.M, match.Bindings(copyB(r.B)))
+						why, detail, _ := checkSound(nil, n)
+						if why == "" {
+							// also: a match that finds nothing must find nothing
+							if bss, err := match.Match(n.P, n.M, match.Bindings(copyB(n.B))); err == nil && len(bss) > 0 && len(rmatch.Embeddings(n.P, n.M, n.B)) == 0 {
+								return "matches-what-the-reference-cannot-embed", fmt.Sprintf("after a refused match, Match(%s, %s, %s) = %s", jgen.J(n.P), jgen.J(n.M), jgen.J(n.B), jgen.J(bss))
+							}
+						}
+						return why, detail
+					}
+					c.Eval()
+					c.Count("S10_evaluations", 1)
+					if why, detail := hist(); why != "" {
+						w2, _ := hist()
+						w3, _ := hist()
+						if w2 != why || w3 != why {
+							c.Count("unreproduced", 1)
+							c.NotExhaustive("a violation after a refused match did not reproduce when the history was run again; not reported")
+							continue
+						}
+						c.Violation("C01/after-a-refused-match/"+why+"/"+shape(n.P), "after Match had refused "+jgen.J(r.P)+" against "+jgen.J(r.M)+": "+detail, map[string]interface{}{"refused": r, "then": n})
+					}
+				}
+			}
 		}
 	}
 	// S6: numbers typed as a Go host types them
